@@ -276,7 +276,8 @@ PROPS = {
     "C18": dict(
         bin="c18",
         lanes=dict(
-            quick=[dict(lane="checked", shards=8, scale=3.0), dict(lane="release", shards=8, scale=3.0)],
+            quick=[dict(lane="checked", shards=8, scale=3.0), dict(lane="release", shards=8, scale=3.0)]
+                  + [dict(lane="release", shards=16, scale=1.0, extra=dict(f32sweep=w), tag=f"f32sweep{w}") for w in (7, 64)],
             thorough=[dict(lane="checked", shards=16, scale=15.0), dict(lane="release", shards=16, scale=15.0)]
                      + [dict(lane="release", shards=16, scale=1.0, extra=dict(f32sweep=w), tag=f"f32sweep{w}") for w in (7, 25, 64, 128)]),
         primary_lane="checked",
@@ -285,8 +286,8 @@ PROPS = {
              "pairs), from_f64 / from_f32 (try_from, from, saturating_from, wrapping_from vs exact floor(f+1/2) on the IEEE fields; "
              "NaN, negative, too large). Grid: both signs x all 2048 f64 exponents x 11 mantissa patterns, all 256 f32 exponents x 7 "
              "patterns, integers in [2^52, 2^53), k+1/2, 2^BITS and neighbours, subnormals, +-0, +-inf, NaNs; Uint values with "
-             "24/25/53/54/64/65-bit heads and zero / one / half-ulp tails. The thorough tier additionally sweeps all 2^32 f32 bit "
-             "patterns through try_from at BITS = 7, 25, 64, 128. Non-trivial: finite non-zero float / value >= 2^53.",
+             "24/25/53/54/64/65-bit heads and zero / one / half-ulp tails. Additionally all 2^32 f32 bit patterns are swept "
+             "through try_from at BITS = 7 and 64 (quick) and 7, 25, 64, 128 (thorough). Non-trivial: finite non-zero float / value >= 2^53.",
         assumptions=COMMON_ASSUME + ["the host's IEEE-754 arithmetic and f32<->f64 conversions are exact as specified",
                                      "native lanes only: Miri deliberately perturbs exp2/log2"],
     ),
